@@ -276,6 +276,9 @@ pub struct Ctx {
     notes: Vec<String>,
     start: Instant,
     pub exhaustive: Option<bool>,
+    /// families still to come (declared by the property) and the end of the current family's time slice
+    families_left: std::cell::Cell<u32>,
+    family_deadline: std::cell::Cell<f64>,
 }
 
 pub fn hash64<T: Hash + ?Sized>(t: &T) -> u64 {
@@ -363,6 +366,8 @@ impl Ctx {
             notes: Vec::new(),
             start: Instant::now(),
             exhaustive: None,
+            families_left: std::cell::Cell::new(0),
+            family_deadline: std::cell::Cell::new(0.0),
         }
     }
 
@@ -387,9 +392,22 @@ impl Ctx {
             }
             return vec![];
         }
+        // under a time limit every declared family gets an equal share of what is left, so that
+        // an over-long family cannot starve the ones behind it
+        if self.time_limit_s > 0.0 && self.families_left.get() > 0 {
+            let now = self.start.elapsed().as_secs_f64();
+            let left = (self.time_limit_s - now).max(0.0);
+            self.family_deadline.set(now + left / self.families_left.get() as f64);
+            self.families_left.set(self.families_left.get() - 1);
+        }
         (0..total)
             .filter(|i| i % self.nshards == self.shard)
             .collect()
+    }
+
+    /// Declare how many workload families (calls of `cases`) this run goes through.
+    pub fn families(&self, n: u32) {
+        self.families_left.set(n);
     }
 
     pub fn replaying(&self) -> bool {
@@ -397,7 +415,12 @@ impl Ctx {
     }
 
     pub fn out_of_time(&self) -> bool {
-        self.time_limit_s > 0.0 && self.start.elapsed().as_secs_f64() > self.time_limit_s
+        if self.time_limit_s <= 0.0 {
+            return false;
+        }
+        let fd = self.family_deadline.get();
+        let end = if fd > 0.0 { fd.min(self.time_limit_s) } else { self.time_limit_s };
+        self.start.elapsed().as_secs_f64() > end
     }
 
     pub fn elapsed(&self) -> f64 {
